@@ -432,6 +432,9 @@ func checkC13(p *core.Program, r *core.Report) {
 }
 
 // checkPoolUse: a value obtained from (*sync.Pool).Get must not be used on any path after it was handed to Put.
+// poolRules: the rule ids checkPoolUse reports under (use-after-Put, reset-before-use); C16 re-uses the rule for the codecs.
+var poolRules = [2]string{"O13.3", "O13.5"}
+
 func checkPoolUse(p *core.Program, r *core.Report, reach map[*ssa.Function]*ssa.Function) {
 	n := 0
 	for fn := range reach {
@@ -561,9 +564,9 @@ func checkPoolUse(p *core.Program, r *core.Report, reach map[*ssa.Function]*ssa.
 					}
 					cn5 := core.FuncName(fn) + ": pooled object is reinitialised before use"
 					if okReset {
-						r.OK("O13.5", cn5, p.Pos(c.Pos()), "a Reset / whole-object assignment precedes every other use (%d use(s))", len(others))
+						r.OK(poolRules[1], cn5, p.Pos(c.Pos()), "a Reset / whole-object assignment precedes every other use (%d use(s))", len(others))
 					} else {
-						r.Violation("O13.5", cn5, p.Pos(c.Pos()), "the object taken from the pool is used (first at %s) without being reset: it still holds what an earlier request left in it, so fields or bytes this request does not overwrite are answered from another request's data", p.Pos(others[0].Pos()))
+						r.Violation(poolRules[1], cn5, p.Pos(c.Pos()), "the object taken from the pool is used (first at %s) without being reset: it still holds what an earlier request left in it, so fields or bytes this request does not overwrite are answered from another request's data", p.Pos(others[0].Pos()))
 					}
 				}
 				cn := core.FuncName(fn) + ": object from sync.Pool"
@@ -600,15 +603,15 @@ func checkPoolUse(p *core.Program, r *core.Report, reach map[*ssa.Function]*ssa.
 				_ = deferred
 				if len(bad) > 0 {
 					sort.Strings(bad)
-					r.Violation("O13.3", cn, p.Pos(c.Pos()), "the pooled object is %s: another request can Get the same object while this one still reads or writes it", strings.Join(uniqStrings(bad), "; "))
+					r.Violation(poolRules[0], cn, p.Pos(c.Pos()), "the pooled object is %s: another request can Get the same object while this one still reads or writes it", strings.Join(uniqStrings(bad), "; "))
 				} else {
-					r.OK("O13.3", cn, p.Pos(c.Pos()), "no use after Put (%d Put site(s))", len(puts))
+					r.OK(poolRules[0], cn, p.Pos(c.Pos()), "no use after Put (%d Put site(s))", len(puts))
 				}
 			}
 		}
 	}
 	if n == 0 {
-		r.OK("O13.3", "handler-reachable code: sync.Pool use", "-", "no sync.Pool.Get in the %d reachable functions", len(reach))
+		r.OK(poolRules[0], "handler-reachable code: sync.Pool use", "-", "no sync.Pool.Get in the %d reachable functions", len(reach))
 	}
 }
 
